@@ -1,10 +1,13 @@
 """C08  Loss-recovery and congestion accounting stay consistent.
 
-Tie: op-sequence correspondence of coq/model/{Recovery,Reno,Cubic,Pacer,RecoveryFloat}.v (PrimFloat
+Ties: (1) op-sequence correspondence of coq/model/{Recovery,Reno,Cubic,Pacer,RecoveryFloat}.v (PrimFloat
 instance, evaluated by vm_compute) against the real QuicPacketRecovery with synthetic QuicSentPacket
 objects and recording delivery handlers, for both congestion controllers; floats are compared
 bit-exactly (IEEE bit patterns).  An independent Python oracle recomputes the ledger from
-spaces[*].sent_packets after every op and checks at-most-once callbacks and the window floor."""
+spaces[*].sent_packets after every op and checks at-most-once callbacks and the window floor.
+(2) op-sequence correspondence of coq/model/Builder.v (C13's model, extracted) against the real QuicPacketBuilder on
+flight-shaped histories, with the statement of flight_le_budget as implementation oracle (fl_gen / fl_oracle).
+(3) system-level and builder-level implementation oracles for the flight budget (sim_run, bd_run)."""
 import itertools
 import json
 import struct
@@ -12,29 +15,54 @@ import struct
 from vlib import core, corr
 
 DEPENDS = ["RecBase", "Reno", "Cubic", "Pacer", "Recovery", "RecoveryFloat", "C08Consts", "RecoveryProofs",
-           "RenoProofs", "CubicProofs", "RangeSet", "Base", "Tok", "C08"]
-GENERATORS = ["c08_consts"]
+           "RenoProofs", "CubicProofs", "RangeSet", "Base", "Tok", "C08",
+           "Builder", "C13Consts", "BuilderProofs", "BuilderFlight", "BuilderFlightAE", "FlightBudget", "FloatMono", "CubicFloor"]
+GENERATORS = ["c08_consts", "c13_consts"]
 TRUSTED_BASE = [
     "vm_compute evaluation of the PrimFloat instance (coqc, no extraction); Coq's primitive floats = IEEE binary64 "
     "round-to-nearest-even, the same arithmetic CPython uses",
     "correspondence harness harness/props/c08.py (+ harness/vlib/corr.py): decides what 'agree' means",
     "libm pow() for CUBIC ((t-K)**3 and x**(1/3)) is an oracle: values recorded from the running implementation by "
     "wrapping CubicCongestionControl.W_cubic / cubic.better_cube_root; the model checks tag and argument bit-exactly",
-    "modelled, not verified: recovery.py, congestion/{base,reno,cubic}.py as Gallina functions; logging "
-    "(quic_logger) is outside the model; handlers are assumed not to re-enter the recovery object",
-    "tools/gen/c08_consts.py (reads K_* constants from the source into coq/gen/C08Consts.v)",
-    "system-level oracle (sim_run): two real QuicConnections over a simulated lossy network; reads the private "
-    "attributes _loss, _probe_pending, _max_datagram_size; flight budget is explored, not proved",
-    "builder-level flight-budget oracle (bd_run/bd_oracle) drives the real QuicPacketBuilder the way datagrams_to_send "
-    "does; there is no Coq model of the builder",
+    "modelled, not verified: recovery.py, congestion/{base,reno,cubic}.py and packet_builder.py (sizes only, C13's "
+    "coq/model/Builder.v) as Gallina functions; logging (quic_logger) is outside the model; handlers are assumed not to "
+    "re-enter the recovery object",
+    "tools/gen/c08_consts.py, tools/gen/c13_consts.py (read constants from the source into coq/gen/C08Consts.v, C13Consts.v)",
+    "extraction of exec_builder (OCaml) for the builder model tie; the builder correspondence reuses C13's encoder and "
+    "implementation driver (harness/props/c13.py: b_encode, b_impl, _b_apply, _mk_builder, _crypto)",
+    "datagrams_to_send itself (budget = congestion_window - bytes_in_flight, one datagram when a probe is pending, the frame "
+    "writers' discipline, on_packet_sent for every packet) is NOT modelled: flight_budget composes the builder model with "
+    "on_packet_sent under the stated discipline; the connection level is explored by the system-level oracle (sim_run: two "
+    "real QuicConnections over a simulated lossy network; reads the private attributes _loss, _probe_pending, "
+    "_max_datagram_size)",
+    "cwnd_floor_cubic only: Flocq 4 (IEEE754.BinarySingleNaN, IEEE754.PrimFloat, Prop.Relative) and the standard library's "
+    "specification of primitive floats and 63-bit integers, i.e. these named assumptions (Print Assumptions cwnd_floor_cubic): "
+    "FloatAxioms.Prim2SF_valid, FloatAxioms.SF2Prim_Prim2SF, FloatAxioms.Prim2SF_SF2Prim, FloatAxioms.add_spec, "
+    "FloatAxioms.mul_spec, FloatAxioms.div_spec, FloatAxioms.of_uint63_spec, FloatAxioms.ldshiftexp_spec; "
+    "Uint63.add_spec, Uint63.sub_spec, Uint63.lsl_spec, Uint63.lsr_spec, Uint63.lor_spec, Uint63.eqb_correct, Uint63.eqb_refl, "
+    "Uint63.leb_spec, Uint63.ltb_spec, Uint63.of_to_Z; and, through Coq's classical real numbers used by Flocq, "
+    "ClassicalDedekindReals.sig_forall_dec, ClassicalDedekindReals.sig_not_dec, Classical_Prop.classic, "
+    "FunctionalExtensionality.functional_extensionality_dep; plus the primitive float / int63 operations themselves "
+    "(PrimFloat.*, PrimInt63.*).  Every other theorem of props/C08.v is closed under the global context (the PrimFloat "
+    "instance theorem lists only the primitives)",
 ]
 ASSUMPTIONS = [
     "fresh packet numbers: a (space, packet number) pair is passed to on_packet_sent at most once",
-    "sent_bytes >= 0 and max_datagram_size >= 0 (cwnd floor theorems)",
-    "CUBIC floor: proved under the FloatAnomaly guard evaluated inside the model (int(w + d) >= w for d a product of "
-    "non-negative factors); the guard never fired on explored histories",
+    "sent_bytes >= 0 and max_datagram_size > 0 (cwnd floor theorems); cwnd_floor_cubic: max_datagram_size < 2^52",
+    "CUBIC floor (cwnd_floor_cubic, PrimFloat instance): premise cb_anom = false, i.e. no int() of an infinity / NaN occurred "
+    "(Python would have raised OverflowError / ValueError out of the controller); the FloatAnomaly guard is no longer a premise. "
+    "For an arbitrary interpretation of the float operations the guarded statement cwnd_floor_cubic_partial remains",
     "times are finite floats small enough that no int(inf/nan) or 2**pto_count overflow occurs (sticky anomaly flags "
     "in the model, compared with 0 on every op)",
+    "flight budget theorems: max_flight_bytes is set (not the _close_pending round, which sets no budget); CID / token lengths "
+    ">= 0; max_datagram_size <= the CryptoPair's 1500-byte limit or a CryptoPair without limit (crypto_fits); caller "
+    "discipline of connection.py's frame writers (BuilderFlight.fl_disciplined): frames only inside an open packet with "
+    "capacity >= the size of the frame type, bytes pushed only after a frame was started and never beyond "
+    "remaining_buffer_space, ACK / CONNECTION_CLOSE frames before any in-flight frame of a packet, bytes pushed into a packet "
+    "that is in flight fit remaining_flight_space, an ACK/CLOSE-only packet has at least 2 payload bytes; checked "
+    "dynamically on the implementation (fl_oracle recomputes the discipline), not proved of connection.py",
+    "flight_budget*: every packet type maps to an existing packet space (sp t < number of spaces); the budget is computed from "
+    "congestion_window and bytes_in_flight as they are BEFORE the call (CUBIC may reset the window inside on_packet_sent)",
 ]
 
 N_SPACES = 3
@@ -620,6 +648,68 @@ def exhaustive(npk, ccs=("reno", "cubic"), quick=False):
                     yield {"cc": cc, "mss": 1200, "irtt": fh(0.1), "pcav": 1, "ops": ops}
 
 
+# ------------------------------------------------------------------------------------ builder sessions of real connections
+BUILDER_SESSIONS = []     # one {"cfg":..., "ops":...} (C13's builder case format) per datagrams_to_send call of the simulated runs
+
+
+class _Recording:
+    """While active, QuicConnection builds its datagrams with a subclass of QuicPacketBuilder that records the calls made
+    by connection.py's frame writers as a builder op history: start_packet / start_frame / flush as they are called, and
+    the bytes the writers pushed into the buffer between two calls (difference of buffer positions) as one push op.
+    The recorded sessions are (a) checked against the caller discipline that flight_le_budget assumes and (b) replayed
+    through the builder model tie."""
+
+    def __enter__(self):
+        import aioquic.quic.connection as conn
+        base = conn.QuicPacketBuilder
+        self._conn, self._base = conn, base
+
+        class RecBuilder(base):
+            def __init__(self, **kw):
+                super().__init__(**kw)
+                self._rec_cfg = {"client": int(kw["is_client"]), "mds": kw["max_datagram_size"], "peer": len(kw["peer_cid"]),
+                                 "host": len(kw["host_cid"]), "token": len(kw.get("peer_token", b"")), "pn": kw.get("packet_number", 0)}
+                self._rec_ops = []
+                self._rec_last = 0
+
+            def _rec_sync(self):
+                n = self._buffer.tell() - self._rec_last
+                if n:
+                    self._rec_ops.append(["push", n])
+
+            def start_packet(self, packet_type, crypto):
+                self._rec_sync()
+                self._rec_ops.append(["sp", packet_type.value])
+                try:
+                    return super().start_packet(packet_type, crypto)
+                finally:
+                    self._rec_last = self._buffer.tell()
+
+            def start_frame(self, frame_type, capacity=1, handler=None, handler_args=[]):
+                self._rec_sync()
+                self._rec_ops.append(["sf", int(frame_type), capacity])
+                try:
+                    return super().start_frame(frame_type, capacity, handler, handler_args)
+                finally:
+                    self._rec_last = self._buffer.tell()
+
+            def flush(self):
+                self._rec_sync()
+                self._rec_ops.append(["flush"])
+                try:
+                    return super().flush()
+                finally:
+                    self._rec_last = self._buffer.tell()
+                    if len(self._rec_ops) > 1:
+                        BUILDER_SESSIONS.append({"cfg": dict(self._rec_cfg, mf=self.max_flight_bytes, mt=self.max_total_bytes),
+                                                 "ops": self._rec_ops})
+        conn.QuicPacketBuilder = RecBuilder
+        return self
+
+    def __exit__(self, *a):
+        self._conn.QuicPacketBuilder = self._base
+
+
 # ------------------------------------------------------------------------------------ system-level oracle
 def sim_run(seed, cc, loss, nbytes, max_steps=1500):
     """Two real QuicConnections joined by a lossy in-memory network with virtual time.  After every
@@ -762,7 +852,8 @@ def system_runs(ctx, n):
         params = {"seed": ctx.seed + k, "cc": ("reno", "cubic")[k % 2], "loss": (0.0, 0.05, 0.2, 0.4)[(k // 2) % 4],
                   "nbytes": (60000, 200000)[(k // 8) % 2]}
         try:
-            log, st = sim_run(params["seed"], params["cc"], params["loss"], params["nbytes"])
+            with _Recording():
+                log, st = sim_run(params["seed"], params["cc"], params["loss"], params["nbytes"])
         except Exception as e:
             log, st = [("raise", "simulated connection pair raised %r" % (e,))], {}
         tot["runs"] += 1
@@ -771,6 +862,112 @@ def system_runs(ctx, n):
         for rule, what in log[:1]:
             ctx.violation("impl-violation", "system run: " + what, {"sim": params}, signature={"rule": rule, "level": "system"})
     return tot
+
+
+# ------------------------------------------------------------------------------------ close round (finding C08-F2)
+def close_round_run(cc, mds):
+    """A resumed client (0-RTT) fills its congestion window with early data, receives the server's whole first flight
+    (it now holds Initial, Handshake and 1-RTT send keys) and the application calls close() before the next
+    datagrams_to_send(): the _close_pending branch sets no flight budget and the 1-RTT CONNECTION_CLOSE packet that
+    shares the datagram with the Initial one is padded to the datagram size, which marks it in flight.
+    Returns (in-flight bytes registered by the close round that are not acknowledgement-only, cwnd - bytes_in_flight
+    before it, bytes_in_flight after, cwnd after)."""
+    import os
+    import ssl
+    from aioquic.quic.configuration import QuicConfiguration
+    from aioquic.quic.connection import QuicConnection
+    tests = os.path.join(core.REPO, "tests")
+    saddr, caddr = ("5.6.7.8", 4433), ("1.2.3.4", 1234)
+
+    def mk(ticket=None):
+        cconf = QuicConfiguration(is_client=True, alpn_protocols=["x"], max_datagram_size=mds, congestion_control_algorithm=cc)
+        cconf.verify_mode = ssl.CERT_NONE
+        saved, ssaved = [], []
+        if ticket:
+            cconf.session_ticket = ticket[0]
+        client = QuicConnection(configuration=cconf, session_ticket_handler=saved.append)
+        sconf = QuicConfiguration(is_client=False, alpn_protocols=["x"], congestion_control_algorithm=cc)
+        sconf.load_cert_chain(os.path.join(tests, "ssl_cert.pem"), os.path.join(tests, "ssl_key.pem"))
+        fetch = (lambda label: ticket[1] if label == ticket[1].ticket else None) if ticket else None
+        server = QuicConnection(configuration=sconf, original_destination_connection_id=client.original_destination_connection_id,
+                                session_ticket_handler=ssaved.append, session_ticket_fetcher=fetch)
+        return client, server, saved, ssaved
+    c, s, saved, ssaved = mk()
+    now = 10.0
+    c.connect(saddr, now=now)
+    for _ in range(8):
+        now += 0.01
+        for d, _a in c.datagrams_to_send(now):
+            s.receive_datagram(d, caddr, now)
+        for d, _a in s.datagrams_to_send(now):
+            c.receive_datagram(d, saddr, now)
+    if not saved or not ssaved:
+        return None
+    c, s, _, _ = mk((saved[0], ssaved[0]))
+    now = 20.0
+    c.connect(saddr, now=now)
+    c.send_stream_data(c.get_next_available_stream_id(), bytes(30000))
+    first = c.datagrams_to_send(now)
+    s.receive_datagram(first[0][0], caddr, now)
+    now += 0.01
+    for d, _a in s.datagrams_to_send(now):
+        c.receive_datagram(d, saddr, now)
+    rec = c._loss
+    before = {(i, pn) for i, sp in enumerate(rec.spaces) for pn in sp.sent_packets}
+    room = rec.congestion_window - rec.bytes_in_flight
+    c.close()
+    c.datagrams_to_send(now)
+    added = 0
+    for i, sp in enumerate(rec.spaces):
+        for pn, p in sp.sent_packets.items():
+            if (i, pn) not in before and p.in_flight:
+                added += p.sent_bytes        # CONNECTION_CLOSE + PADDING: not an acknowledgement-only packet
+    return added, room, rec.bytes_in_flight, rec.congestion_window
+
+
+# Candidate finding C08-F2 (docs/C08.md).  known_findings.json is a shared file that checks never write: until the entry is
+# listed there (NEEDS in docs/C08.md) it is registered in memory, so that the scenario below is reported through the
+# known-finding path (KNOWN-FINDING line, evidence.known_findings_hit) -- for exactly this signature and nothing else.
+LOCAL_KNOWN_FINDINGS = [{
+    "id": "C08-F2-close-round-ignores-flight-budget",
+    "property": "C08",
+    "status": "open",
+    "what": "the CONNECTION_CLOSE round (_close_pending branch of datagrams_to_send) sets no max_flight_bytes: a client that still "
+            "holds Initial keys pads the 1-RTT CONNECTION_CLOSE packet to the datagram size, which marks it in flight "
+            "(max_datagram_size 1452, window full of 0-RTT data: 1357 in-flight bytes sent with cwnd - bytes_in_flight = 1272; "
+            "afterwards bytes_in_flight 15241 > congestion_window 15156)",
+    "match": {"rule": "flight_budget", "level": "connection", "closing": True},
+}]
+
+
+def close_rounds(ctx):
+    st = {"runs": 0, "over_budget": 0, "skipped": 0, "results": []}
+    import os
+    if not os.path.exists(os.path.join(core.REPO, "tests", "ssl_cert.pem")):
+        st["skipped"] = "tests/ssl_cert.pem not found in the tree"
+        return st
+    for cc in ("reno", "cubic"):
+        for mds in (1200, 1452):
+            try:
+                r = close_round_run(cc, mds)
+            except Exception as e:
+                ctx.violation("impl-violation", "close round scenario raised %r" % (e,), {"close_round": {"cc": cc, "mds": mds}},
+                              signature={"rule": "raise", "level": "connection", "closing": True})
+                continue
+            if r is None:
+                st["skipped"] += 1
+                continue
+            st["runs"] += 1
+            added, room, bif, cw = r
+            st["results"].append({"cc": cc, "mds": mds, "in_flight_added": added, "room": room, "bytes_in_flight": bif, "cwnd": cw})
+            if added > max(room, 0):
+                st["over_budget"] += 1
+                ctx.violation("impl-violation",
+                              "close round: %d in-flight bytes (CONNECTION_CLOSE + PADDING, not acknowledgement-only, no probe) sent with "
+                              "cwnd - bytes_in_flight = %d; afterwards bytes_in_flight %d, congestion_window %d" % (added, room, bif, cw),
+                              {"close_round": {"cc": cc, "mds": mds}},
+                              signature={"rule": "flight_budget", "level": "connection", "closing": True})
+    return st
 
 
 # ------------------------------------------------------------------------------------ builder-level flight budget
@@ -820,9 +1017,11 @@ def bd_run(case):
 
 
 def bd_oracle(case):
-    """C08, last sentence, at the level where it is decided: apart from acknowledgement-only packets, one
-    builder session (= one datagrams_to_send call) adds at most max(max_flight_bytes, 0) in-flight bytes,
-    where QuicConnection sets max_flight_bytes = cwnd - bytes_in_flight (one datagram if a probe is pending)."""
+    """C08, last sentence, at the level where it is decided: one builder session (= one datagrams_to_send call) adds at
+    most max(max_flight_bytes, 0) in-flight bytes -- ALL packets marked in flight, acknowledgement-only ones included
+    (they are in flight only when padded, and the padding stays inside the flight capacity) -- where QuicConnection sets
+    max_flight_bytes = cwnd - bytes_in_flight (one datagram if a probe is pending).  No allowance for the sample-padding
+    byte (C08-F1, fixed by e93c691): budget + 1 is a violation."""
     if case["max_flight"] is None:
         return None
     try:
@@ -832,21 +1031,18 @@ def bd_oracle(case):
     budget = max(case["max_flight"], 0)
     payload = case.pop("_payload", {})
     flight = 0
-    sample_padded = 0      # packets with a 1-byte payload get 1 byte of header-protection sample padding
     for p in packets:
         fr = frames.get(p.packet_number, [])
-        ack_only = all(k in BD_NON_IN_FLIGHT for k in fr)
-        if p.in_flight and not ack_only:
+        # only exemption (theorem flight_le_budget, clause 3 of the discipline): an ACK / CLOSE "frame" of a single byte,
+        # which no real frame writer produces, gets the header-protection sample padding and is then in flight
+        one_byte_ack = all(k in BD_NON_IN_FLIGHT for k in fr) and payload.get(p.packet_number) == 1
+        if p.in_flight and not one_byte_ack:
             flight += p.sent_bytes
-            if payload.get(p.packet_number) == 1:
-                sample_padded += 1
     if flight > budget:
-        over = flight - budget
-        cause = "sample_padding" if over <= sample_padded else "other"
-        return ("%d in-flight bytes were put on the wire while the budget (cwnd - bytes_in_flight) was %d (%s); packets: %s"
-                % (flight, case["max_flight"], cause,
+        return ("%d in-flight bytes were put on the wire while the budget (cwnd - bytes_in_flight) was %d; packets: %s"
+                % (flight, case["max_flight"],
                    [(p.packet_type.name, p.sent_bytes, int(p.in_flight), frames.get(p.packet_number)) for p in packets]),
-                {"rule": "flight_budget", "level": "builder", "cause": cause})
+                {"rule": "flight_budget", "level": "builder", "overshoot": flight - budget})
     if any(sz > case["mds"] for sz in sizes):
         return ("datagram larger than max_datagram_size", {"rule": "datagram_size"})
     return None
@@ -930,6 +1126,177 @@ def _safe_bd(case):
         return False
 
 
+
+# ------------------------------------------------------------------------------------ builder MODEL tie (flight budget theorems)
+# The flight-budget theorems (coq/proofs/BuilderFlight.v, FlightBudget.v) are about C13's model of QuicPacketBuilder
+# (coq/model/Builder.v, extracted as exec_builder).  Its tie to the code is re-run here on flight-shaped histories:
+# C13's encoder / implementation driver (same observables: outcome, remaining_buffer_space, remaining_flight_space,
+# packet_is_empty, packet_number after every op; datagram lengths and packet metadata incl. in_flight / sent_bytes per
+# flush) with C08's own generator and C08's own oracle (the statement of flight_le_budget coded on the implementation).
+FL_NIF = (0x02, 0x03, 0x1C, 0x1D)          # NON_IN_FLIGHT_FRAME_TYPES
+
+
+def _c13():
+    from props import c13
+    return c13
+
+
+def _uvar_size(v):
+    v %= 1 << 64
+    return 1 if v < 64 else 2 if v < 16384 else 4 if v < (1 << 30) else 8 if v < (1 << 62) else None
+
+
+def fl_gen(rng, n):
+    """Builder histories shaped like one datagrams_to_send call (ACK / CLOSE first in a packet, in-flight frame bodies
+    sized with remaining_flight_space, QuicPacketBuilderStop ends the flight, one flush at the end), recorded as
+    concrete ops in C13's case format by driving the real builder.  A wild fraction breaks one of the three flight
+    clauses of the discipline (one-byte ACK, ACK after an in-flight frame, body sized with remaining_buffer_space)."""
+    c13 = _c13()
+    cases = []
+    for _ in range(n):
+        mds = rng.choice([1200, 1200, 1280, 1452, 1500])
+        ph = rng.choice([(8, 8), (8, 8), (0, 0), (20, 20), (8, 0)])
+        hdr1 = 3 + ph[0]
+        mf = rng.choice([None, 0, -50, 1, hdr1 + 16, hdr1 + 17, hdr1 + 18, hdr1 + 19, 45, 46, 100, 300, 600, 601, 1199, 1200, 1201,
+                         2000, 2400, 5000, 12000, rng.randint(0, 3000), rng.randint(0, 3000), rng.randint(0, 200)])
+        cfg = {"client": int(rng.random() < 0.5), "mds": mds, "peer": ph[0], "host": ph[1],
+               "token": rng.choice([0, 0, 0, 16, 80]), "mf": mf,
+               "mt": rng.choice([None, None, None, 3600, 1500, 900, rng.randint(100, 4000)]), "pn": rng.choice([0, 0, 7, 65535])}
+        wild = rng.random() < 0.2
+        b = c13._mk_builder(cfg)
+        crypto = c13._crypto(mds)
+        ops = []
+
+        def do(op):
+            code, _ = c13._b_apply(b, crypto, op)
+            ops.append(op)
+            return code
+        style = rng.choice(["handshake", "app", "mixed", "mixed"])
+        stopped = False
+        for _ in range(rng.randint(1, 6)):
+            if style == "handshake":
+                pt = rng.choice([0, 2, 5])
+            elif style == "app":
+                pt = 5
+            else:
+                pt = rng.choice([0, 2, 5, 5, 1])
+            if do(["sp", pt]) != 0:
+                break
+            if rng.random() < 0.5:       # non in-flight frames first, as _write_handshake / _write_application do
+                if do(["sf", rng.choice([2, 2, 2, 3, 0x1C, 0x1D]), rng.choice([1, 5, 20, 64])]) != 0:
+                    break
+                nb = max(0, min(rng.choice([4, 10, 30, 200, 1500]), b.remaining_buffer_space))
+                if wild and rng.random() < 0.4:
+                    nb = 0               # a one-byte ACK "frame" (clause 3)
+                if nb:
+                    do(["push", nb])
+            for _ in range(rng.choice([0, 1, 1, 2, 3])):
+                kind = rng.choice(["ping", "padding", "crypto", "stream", "stream", "crypto", "hsdone"])
+                if kind in ("ping", "padding", "hsdone"):
+                    ft, cap = {"ping": 1, "padding": 0, "hsdone": 0x1E}[kind], 1
+                    body = rng.choice([0, 0, 0, 3, 2000]) if kind == "padding" else 0
+                else:
+                    ft, cap = (6 if kind == "crypto" else rng.choice([8, 0x0A, 0x0F])), rng.choice([2, 10, 19, 100])
+                    body = rng.choice([0, 1, 50, 100, 600, 2000])
+                if do(["sf", ft, cap]) != 0:
+                    stopped = True
+                    break
+                room = b.remaining_flight_space
+                if wild and rng.random() < 0.3:
+                    room = b.remaining_buffer_space        # clause 2
+                nb = max(0, min(body, room))
+                if nb:
+                    do(["push", nb])
+                if wild and rng.random() < 0.25:           # clause 1: ACK after an in-flight frame
+                    if do(["sf", 2, 1]) == 0:
+                        nb = max(0, min(rng.choice([4, 200, 1500]), b.remaining_buffer_space))
+                        if nb:
+                            do(["push", nb])
+            if stopped:
+                break
+        do(["flush"])
+        cases.append({"cfg": cfg, "ops": ops})
+    return cases
+
+
+def _fl_eval(case):
+    """flight_le_budget coded on the real builder (public behaviour only; the discipline is recomputed here from the
+    ops and the public properties, independently of the model): in a history that respects the caller discipline
+    (C13's clauses + the three flight clauses) the sent_bytes of ALL packets with in_flight set sum up to at most
+    max(0, max_flight_bytes).  Without clause 3 (one-byte ACK-only packets allowed) the same holds for the ack-eliciting
+    in-flight packets (flight_le_budget_ack_eliciting); and every datagram is <= max_datagram_size.
+    Returns (violation or None, disciplined, clause 3 respected, in-flight bytes, in-flight packets)."""
+    c13 = _c13()
+    cfg = case["cfg"]
+    b = c13._mk_builder(cfg)
+    crypto = c13._crypto(cfg["mds"])
+    mf = cfg["mf"]
+    disc = disc3 = True           # clauses of C13 + flight clauses 1, 2 ; flight clause 3
+    in_packet = cur_inflight = False
+    payload = 0
+    flight = flight_ae = npk = 0
+    bad = None
+    for i, op in enumerate(case["ops"]):
+        k = op[0]
+        if k == "sf":
+            sz = _uvar_size(op[1])
+            if not in_packet or sz is None or sz > op[2]:
+                disc = False
+            if op[1] in FL_NIF and cur_inflight:
+                disc = False
+        elif k == "push":
+            try:
+                ok = in_packet and not b.packet_is_empty and 0 <= op[1] <= b.remaining_buffer_space
+                if ok and cur_inflight and op[1] > b.remaining_flight_space:
+                    ok = False
+            except (AssertionError, AttributeError):
+                ok = False
+            if not ok:
+                disc = False
+        elif k in ("sp", "flush"):
+            if in_packet and not cur_inflight and payload == 1:
+                disc3 = False
+        code, res = c13._b_apply(b, crypto, op)
+        if k == "sp":
+            in_packet = code == 0
+            cur_inflight = False
+            payload = 0
+        elif k == "sf" and code == 0:
+            payload += _uvar_size(op[1]) or 0
+            if op[1] not in FL_NIF:
+                cur_inflight = True
+        elif k == "push" and code == 0:
+            payload += op[1]
+        elif k == "flush":
+            in_packet = cur_inflight = False
+            payload = 0
+            if res is not None:
+                dgs, pkts = res
+                for d in dgs:
+                    if len(d) > cfg["mds"] and bad is None:
+                        bad = ("datagram of %d bytes, max_datagram_size %d" % (len(d), cfg["mds"]),
+                               {"rule": "datagram_size", "level": "builder"})
+                flight += sum(p.sent_bytes for p in pkts if p.in_flight)
+                flight_ae += sum(p.sent_bytes for p in pkts if p.in_flight and p.is_ack_eliciting)
+                npk += sum(1 for p in pkts if p.in_flight)
+        if bad is None and mf is not None and disc and ((disc3 and flight > max(0, mf)) or flight_ae > max(0, mf)):
+            bad = ("disciplined builder history put %d in-flight bytes (%d ack-eliciting) on the wire with max_flight_bytes = %d "
+                   "(= cwnd - bytes_in_flight) (op %d)" % (flight, flight_ae, mf, i),
+                   {"rule": "flight_budget", "level": "builder", "overshoot": max(flight if disc3 else 0, flight_ae) - max(0, mf)})
+    return bad, disc, disc3, flight, npk
+
+
+def fl_oracle(case):
+    return _fl_eval(case)[0]
+
+
+def flight_suite(ctx):
+    c13 = _c13()
+    return corr.Suite(ctx, "builderflight", "exec_builder", c13.b_encode, c13.b_impl, fl_oracle, _ops, _rebuild,
+                      nontrivial=lambda c, out: any(o[0] == "sf" for o in c["ops"]) and len(c["ops"]) >= 3,
+                      opname=lambda o: o[0])
+
+
 # ------------------------------------------------------------------------------------ driver
 def _ops(c):
     return c["ops"]
@@ -980,22 +1347,6 @@ def _tally(s, cases):
             h["some-packet-acked"] += 1
 
 
-# Finding of this check on the unchanged tree (docs/C08.md, finding F1; proposed repair docs/C08-fix-1.patch).
-# known_findings.json is a shared file that checks never write: until the entry below is added there (NEEDS in
-# docs/C08.md) it is registered in memory, so the violation is printed as KNOWN-FINDING on every run instead
-# of being hidden or loosened away.
-LOCAL_KNOWN_FINDINGS = [{
-    "id": "C08-F1-sample-padding-overshoots-flight-budget",
-    "property": "C08",
-    "status": "open",
-    "what": "QuicPacketBuilder: a packet whose payload is a single byte (PING / PADDING / HANDSHAKE_DONE only) gets one byte "
-            "of header-protection sample padding in _end_packet that start_frame did not reserve, so one datagrams_to_send "
-            "call can put max_flight_bytes + 1 in-flight bytes on the wire (e.g. cwnd - bytes_in_flight = 28, PING-only "
-            "1-RTT packet of 29 bytes); proposed repair docs/C08-fix-1.patch",
-    "match": {"rule": "flight_budget", "level": "builder", "cause": "sample_padding"},
-}]
-
-
 def run(ctx):
     import time
     s = suite(ctx)
@@ -1011,7 +1362,9 @@ def run(ctx):
     # that would start after the deadline are skipped and counted.
     allc = [c for _, b in batches for c in b]
     chunk = 600 if not ctx.thorough else 6000
-    deadline = None if ctx.thorough else ctx.t0 + 100
+    # (counted from here: the separate coqc of props/C08.v, 15-45 s since cwnd_floor_cubic pulls in Flocq and the reals, is not
+    # charged to the recovery tie)
+    deadline = None if ctx.thorough else time.time() + 90
     skipped = 0
     for i in range(0, len(allc), chunk):
         if deadline is not None and i > 0 and time.time() > deadline:
@@ -1021,8 +1374,50 @@ def run(ctx):
     _tally(s, rnd[:300] + lng[:60])
     system = system_runs(ctx, ctx.n(24, 200))
     builder = builder_runs(ctx, ctx.n(4000, 60000))
+    if not any(k.get("id") == LOCAL_KNOWN_FINDINGS[0]["id"] for k in ctx.known):
+        ctx.known = list(ctx.known) + LOCAL_KNOWN_FINDINGS
+    closing = close_rounds(ctx)
+    # builder MODEL <-> QuicPacketBuilder on flight-shaped histories + the statement of flight_le_budget as oracle
+    fs = flight_suite(ctx)
+    fl_cases = corr.load_corpus("C08", fs.name) + fl_gen(rng, ctx.n(2500, 40000))
+    # builder sessions recorded from the real connections of the system runs: the discipline assumed by the flight theorems is
+    # checked on what connection.py really does, and the sessions go through the model tie and the oracle as well
+    sessions = [c for c in BUILDER_SESSIONS if c["cfg"]["mf"] is not None]
+    del BUILDER_SESSIONS[:]
+    real = {"sessions": len(sessions), "ops": sum(len(c["ops"]) for c in sessions), "undisciplined": 0, "in_flight_packets": 0,
+            "budget_below_datagram": sum(1 for c in sessions if c["cfg"]["mf"] < c["cfg"]["mds"])}
+    for c in sessions:
+        _, disc, disc3, _fl, npk = _fl_eval(c)
+        real["in_flight_packets"] += npk
+        if not (disc and disc3):
+            real["undisciplined"] += 1
+            if real["undisciplined"] == 1:
+                ctx.violation("correspondence", "hypothesis of flight_le_budget fails on real traffic: a datagrams_to_send call drove the "
+                              "packet builder outside the caller discipline (BuilderFlight.fl_disciplined)", {"builderflight": c},
+                              signature={"rule": "caller_discipline", "level": "connection"})
+    step = max(1, len(sessions) // ctx.n(1500, 20000))
+    fl_cases += sessions[::step]
+    fl_hist = {"disciplined": 0, "one_byte_ack_only": 0, "undisciplined": 0, "with_budget": 0, "budget_below_datagram": 0,
+               "in_flight_packets": 0, "budget_exactly_used": 0}
+    for c in fl_cases:
+        _, disc, disc3, fl, npk = _fl_eval(c)
+        fl_hist["disciplined" if disc and disc3 else "one_byte_ack_only" if disc else "undisciplined"] += 1
+        fl_hist["in_flight_packets"] += npk
+        if c["cfg"]["mf"] is not None:
+            fl_hist["with_budget"] += 1
+            fl_hist["budget_below_datagram"] += int(c["cfg"]["mf"] < c["cfg"]["mds"])
+            fl_hist["budget_exactly_used"] += int(disc and fl == c["cfg"]["mf"] > 0)
+    try:
+        fs.run(fl_cases)
+    except core.BuildError as e:      # the builder model does not build against this tree: the oracle still runs
+        core.log("C08 builder model not runnable (%s): implementation oracle only" % (str(e)[:200],))
+        for c in fl_cases:
+            badc = fl_oracle(c)
+            if badc:
+                ctx.violation("impl-violation", "builderflight: " + badc[0], {"builderflight": c}, signature=badc[1])
+                break
     return corr.merge_coverage(
-        [s],
+        [s, fs],
         "op histories on the real QuicPacketRecovery (3 spaces, reno and cubic alternating): sends with all flag "
         "combinations, ack range sets with gaps / never-sent / already-acked / repeated numbers, loss timer and PTO "
         "firings at, after and before get_loss_detection_time, discards with packets in flight, reschedule_data, "
@@ -1030,6 +1425,7 @@ def run(ctx):
         "distinct = distinct model expression; non-trivial = at least one send followed by an ack/timeout/discard",
         {"exhaustive_small_scope": skipped < len(rnd) + len(lng) or skipped == 0, "exhaustive_cases": len(ex),
          "cases_skipped_by_time_guard": skipped, "system_tie": system, "builder_flight_budget": builder,
+         "builder_model_tie": fl_hist, "builder_sessions_of_real_connections": real, "close_round": closing,
          "generated": {"exhaustive": len(ex), "random": len(rnd), "long": len(lng)}})
 
 
@@ -1042,6 +1438,17 @@ def replay(ctx, rep):
         return {"builder": {"oracle": bd_oracle(case["builder"]), "datagrams": sizes,
                             "packets": [(p.packet_type.name, p.packet_number, p.sent_bytes, int(p.in_flight),
                                          int(p.is_ack_eliciting), frames.get(p.packet_number)) for p in packets]}}
+    if isinstance(case, dict) and ("builderflight" in case or "cfg" in case):
+        c = case.get("builderflight", case)
+        fs = flight_suite(ctx)
+        try:
+            d, e, g = fs.disagree(c)
+        except Exception as ex:
+            d, e, g = None, None, repr(ex)
+        return {"builderflight": {"disagree": d, "impl": e, "model": g, "oracle": fl_oracle(c)}}
+    if isinstance(case, dict) and "close_round" in case:
+        p = case["close_round"]
+        return {"close_round": dict(zip(("in_flight_added", "room", "bytes_in_flight", "cwnd"), close_round_run(p["cc"], p["mds"])))}
     if isinstance(case, dict) and "sim" in case:
         p = case["sim"]
         log, st = sim_run(p["seed"], p["cc"], p["loss"], p["nbytes"])
